@@ -34,6 +34,10 @@ import (
 func init() { register("c04", runC04) }
 
 var errC04Link = errors.New("c04: link failure")
+
+// the error a failing Write of the client's transport returns: errC04Link, or io.EOF itself (what a closed x/crypto/ssh
+// channel returns from Write) - set per case
+var c04WErr error = errC04Link
 var errC04Skipped = errors.New("c04: call skipped, its file was never opened")
 
 const c04Watchdog = 5 * time.Second
@@ -84,11 +88,11 @@ func (l *c04Link) Write(b []byte) (int, error) {
 			n, _ = l.Conn.Write(b[:len(b)/2])
 		}
 		l.fail(l.part)
-		return n, errC04Link
+		return n, c04WErr
 	}
 	n, err := l.Conn.Write(b)
 	if err != nil && l.failed.Load() {
-		err = errC04Link
+		err = c04WErr
 	}
 	return n, err
 }
@@ -972,7 +976,7 @@ func c04Stress(c *Ctx, G int, mode string, budget, failAt int, part bool, lag in
 func runC04(c *Ctx) {
 	c.Rule("a fixed client program (stat, open, single and multi-chunk ReadAt/WriteAt, WriteTo, ReadDir, ReadLink, Create/Write/ReadFrom, Close; 30-60 requests) " +
 		"runs against a scripted file server over net.Pipe; kind cut: for EVERY byte offset k of the server->client stream (incl. the VERSION reply) the first k bytes get through, " +
-		"then mode=eof (peer end closed) or mode=err (both ends closed, client sees a non-EOF error); mode=wfail: the client's k-th Write call fails (part=1: after half its bytes) and the link goes down; " +
+		"then mode=eof (peer end closed) or mode=err (both ends closed, client sees a non-EOF error); mode=wfail: the client's k-th Write call fails (part=1: after half its bytes; weof=1: the error is io.EOF itself, as from a closed ssh channel) and the link goes down; " +
 		"sess=0 short session, sess=1 longer session with 3-deep concurrent ReadAt/WriteAt/WriteTo/ReadFrom, sess=2 the short session on the sequential read paths; " +
 		"lag=n: the peer holds the replies to chunk requests until more than n are pending (several requests in flight at the cut); thorough adds more lags; " +
 		"kind stress: g goroutines loop Stat/ReadAt/multi-chunk ReadAt while the link is cut at a seeded byte/write index; " +
@@ -1137,10 +1141,17 @@ func runC04(c *Ctx) {
 			}
 		}
 		for _, part := range []bool{false, true} {
-			for j := 0; j <= J+3; j++ {
-				n := c.Case("cut", kvi("k", j), kvs("mode", "wfail"), kvi("sess", v), kvi("lag", lag), kvb("part", part))
-				c.Stat("mode_wfail")
-				evaluate(n, c04Session(v, "wfail", -1, j, part, lag))
+			for _, weof := range []bool{false, true} {
+				for j := 0; j <= J+3; j++ {
+					n := c.Case("cut", kvi("k", j), kvs("mode", "wfail"), kvi("sess", v), kvi("lag", lag), kvb("part", part), kvb("weof", weof))
+					c.Stat("mode_wfail")
+					if weof {
+						c04WErr = io.EOF
+						c.Stat("mode_wfail_write_error_is_io_EOF")
+					}
+					evaluate(n, c04Session(v, "wfail", -1, j, part, lag))
+					c04WErr = errC04Link
+				}
 			}
 		}
 	}
@@ -1159,6 +1170,9 @@ func runC04(c *Ctx) {
 					failAt = 3 + c.Rng.Intn(600)
 					part = c.Rng.Intn(2) == 0
 					k = failAt
+					if round%2 == 1 {
+						c04WErr = io.EOF
+					}
 				} else {
 					budget = 40 + c.Rng.Intn(30000)
 					k = budget
@@ -1168,6 +1182,7 @@ func runC04(c *Ctx) {
 				n := c.Case("stress", kvi("g", G), kvs("mode", mode), kvi("k", k), kvb("part", part), kvi("lag", lag), kvx("seed", uint64(seed)))
 				c.Stat("stress_mode_" + mode)
 				r, sr := c04Stress(c, G, mode, budget, failAt, part, lag, seed)
+				c04WErr = errC04Link
 				reasons := append([]string(nil), sr.reasons...)
 				if r.newHang {
 					reasons = append(reasons, "hang: NewClientPipe did not return within 5s")
